@@ -108,6 +108,12 @@ func (s *Surface) Str(v string) (string, string) {
 	if s.Plain {
 		return string(js), "string-json"
 	}
+	// the literal as it is between double quotes, no backslash anywhere: legal Go-style source
+	// for every character but quote, backslash and newline — raw TAB, CR, ESC, DEL, U+2028 too
+	if s.R.Intn(5) == 0 && utf8.ValidString(v) && !strings.ContainsAny(v, "\"\\\n") {
+		s.feat("verbatim-quoted-string")
+		return "\"" + v + "\"", "string-verbatim"
+	}
 	switch s.R.Intn(5) {
 	case 0:
 		if utf8.ValidString(v) && !strings.ContainsAny(v, "`\r") {
